@@ -98,7 +98,8 @@ def case_piecewise_linear():
 # the derivative through the eigh stub is not modelled (outside the claim): every C10 case whose substitution model is
 # diagonalised numerically (HKY, GTR) is left out, whatever C10 adds later
 CASES = {k: v for k, v in C10.CASES.items()
-         if not (k.startswith('likelihood:') and ('/HKY' in k or '/GTR' in k)) and k not in ('substitution:GTR.q', 'substitution:HKY.q')}
+         if not (k.startswith('likelihood:') and ('/HKY' in k or '/GTR' in k)) and k not in ('substitution:GTR.q', 'substitution:HKY.q')
+         and not k.startswith(('bdsk:', 'birthdeath:', 'extra:'))}
 CASES.update({
     'chain:node-height log-Jacobian': lambda: case_chain('jacobian'),
     'chain:constant coalescent on exp-transformed theta, ratio tree': lambda: case_chain('coalescent'),
